@@ -100,3 +100,16 @@ func init() {
 		Rule: "write-footprint (frame condition) of codec calls: every store, map update and buffer append executed by two codec calls on distinct arguments through one shared codec is checked, on every explored path, to target memory allocated by the call or reachable only from its own arguments - never the shared codec, never a package-level variable; natively the same calls run in parallel under the race detector",
 	})
 }
+
+func init() {
+	register(&PropCheck{
+		ID: "C13", Pkgs: []string{"datacodec"}, FnRe: `^VerifC13_`, Level: "model_checking",
+		Gen: func(c *CheckCtx) error {
+			if err := genC13(c); err != nil {
+				return err
+			}
+			return genCodecHarnesses(c, "C13")
+		},
+		Rule: "one harness per numeric conversion helper found in datacodec/conversions.go and per (CQL numeric codec, Go type, direction); the source value is symbolic over its whole domain; the oracle is mathematical equality in a wider bit-vector / the big.Int model",
+	})
+}
